@@ -17,6 +17,7 @@ import (
 	"runtime"
 	"runtime/debug"
 	"sync"
+	"sync/atomic"
 	"time"
 	"unsafe"
 )
@@ -224,6 +225,16 @@ func RegisterReset(f func()) {
 }
 
 var resetMu sync.Mutex
+
+var traceFreeSpawn = os.Getenv("VERIF_TRACE_FREE_SPAWN") != ""
+
+// freeLib counts goroutines the code under test started while no controlled execution was
+// active and that are still running. The shims tell "controlled" from "free" by whether an
+// execution is active, not by who calls them, so such a goroutine must not be alive when an
+// execution starts: harnesses create every object of the code under test inside Run (where
+// its goroutines are tasks, unwound when the execution ends). Run checks this and reports a
+// machinery fault - never a verdict - otherwise.
+var freeLib atomic.Int64
 
 // Cur returns the active execution or nil when running free.
 //
@@ -618,6 +629,17 @@ func GoLib(f func()) { spawn(f, true) }
 func spawn(f func(), lib bool) {
 	e := cur
 	if e == nil {
+		if lib {
+			if traceFreeSpawn {
+				fmt.Fprintf(os.Stderr, "FREE-SPAWN by code under test outside a controlled execution:\n%s\n", debug.Stack())
+			}
+			freeLib.Add(1)
+			go func() {
+				defer freeLib.Add(-1)
+				f()
+			}()
+			return
+		}
 		go f()
 		return
 	}
@@ -717,6 +739,12 @@ var WatchdogSeconds = 120
 func Run(cfg Config, body func()) *Result {
 	if cur != nil {
 		panic("vrt: nested Run")
+	}
+	for i := 0; freeLib.Load() > 0; i++ {
+		if i == 4000 {
+			MachineryFault("%d goroutine(s) started by the code under test outside a controlled execution are still running when one starts (set VERIF_TRACE_FREE_SPAWN=1 to see where they were started)", freeLib.Load())
+		}
+		time.Sleep(500 * time.Microsecond)
 	}
 	e := &Exec{prefix: cfg.Prefix, expectN: cfg.ExpectN, horizon: cfg.Horizon, finished: make(chan struct{}, 1), OnPoint: cfg.OnPoint}
 	if e.horizon == 0 {
